@@ -31,7 +31,7 @@ impl Harness for C09 {
         quad::plan(t, seed, &mut jobs);
         logit::plan(t, seed, &mut jobs);
         let mut floors = logit::floors(t);
-        floors.extend(quad::floors(t));
+        floors.extend(quad::floors(t, seed));
         Plan {
             jobs,
             budget_s: if t { 2700 } else { 40 },
